@@ -14,6 +14,7 @@ TYPES = {
     "bool": ("bool", "false", "true", "true", "dw_bool"),
     "String": ("String", "String::new()", 'String::from("pay")', 'String::from("Zq")', "dw_string"),
     "opt": ("Option<u8>", "None", "Some(3u8)", "Some(4u8)", "dw_opt"),
+    "tricky": ("Tricky", "<Tricky as ::core::default::Default>::default()", "Tricky(7)", "Tricky(8)", "dw_tricky"),   # inherent default() != Default
     "T": ("T", "<T as Default>::default()", None, None, None),          # only inside generic enums; T := u16
     "str": ("&'a str", '""', '"brw"', '"bq"', None),                       # only with a lifetime parameter
     "arr": ("Arr<N>", "Arr::<N>::default()", None, None, None),           # const generic marker
